@@ -31,7 +31,14 @@ RULE = ("(a) every key of the regenerated table, pattern keys of online_filter/f
         "with load_from_file/Configuration(files=) vs assignment of the text and vs the model. "
         "(c) store_metadata -> raw h5py attrs (vs model h5) and new_dataset (vs normalised), "
         "batches of keys; a sample carried through export.hdf5, compress, repack, condense, "
-        "join, split. (d) HISTORIES: assignments interleaved with register/deregister of "
+        "join, split, judged (like the re-opened source) against the in-memory normalisation of "
+        "what was WRITTEN, never against what a re-opened file reports. About 30 % of the stored "
+        "values (storage, carry-over, store histories, text route, sources) come from the edge "
+        "of the value range (EDGE_VALUES per converter: nan/+inf/-inf as float, numpy scalar, "
+        "text, 0-d array and inside pairs/2-d arrays/user sequences; -0.0; the smallest "
+        "subnormal/normal and the largest double; 64-bit integers; blank texts and texts spelling "
+        "special numbers), each accepted by the key's converter as asked from the code; NaN "
+        "compares equal to NaN (same key present, value NaN), a missing key is never equal. (d) HISTORIES: assignments interleaved with register/deregister of "
         "temporary and plug-in features, every query repeated after each registry change and "
         "compared with an oracle recomputed from the current dfn state, with earlier answers for "
         "the same registry, and with the model (state = registry); several store_metadata calls "
@@ -54,8 +61,10 @@ RULE = ("(a) every key of the regenerated table, pattern keys of online_filter/f
         "data-describing attributes (samples per event, channel count, roi size) optionally "
         "contradicting the data or absent (raw h5py), through export.hdf5 with a random feature "
         "subset x event selection and through compress/repack/condense/split/join: every key of "
-        "every metadata section and of user has the source's value and type in the output, nothing "
-        "is invented; admitted deviations are only those the OUTPUT's data justify (event count; "
+        "every metadata section and of user has in the output the value and type of the source's "
+        "ORIGINALS (raw HDF5 attributes read with h5py, normalised by in-memory assignment; the "
+        "re-opened source must report exactly these), nothing is invented; keys a tool parses "
+        "before writing (join: experiment date/time) are well-formed on that route; admitted deviations are only those the OUTPUT's data justify (event count; "
         "samples per event / roi size = source or trace length / image shape; channel count = "
         "source, number of maxima only if the source has none) and keys naming the new file; "
         "export cases are replayed in the model (attr-store of the source configuration, "
@@ -75,8 +84,11 @@ TRUSTED_BASE = [
     "arrays (numpy 2.x raises TypeError for ndim>0)",
     "floats are exact rationals in the model: numeric strings and floats used by the generator "
     "are dyadic (exactly representable, <= 12 fractional decimal digits); str.lower() is ASCII "
-    "lower-casing (generator uses only caseless non-ASCII characters); -0.0, digit-group "
-    "underscores and |int| >= 2**53 are not generated",
+    "lower-casing (generator uses only caseless non-ASCII characters); the sign of a zero is "
+    "not compared (-0.0 == 0.0, tagged as 0); integers handed to converters that go through "
+    "float() are exactly representable doubles (float rounding of larger integers is trusted, "
+    "`double_exact`); integers beyond 64 bit have no HDF5 type (h5py raises TypeError, nothing "
+    "is written) and are not generated for storage; digit-group underscores are not generated",
 ]
 ASSUMPTIONS = ["the configuration-file loader strips exactly: everything from the first '#', "
                "white space at both ends, then ' and blanks, then \" and blanks, then white space "
@@ -210,7 +222,8 @@ def dec_scal(t):
     k, r = t[0], t[2:]
     return {"s": lambda: dec_str(r), "y": lambda: dec_str(r).encode("latin1"),
             "i": lambda: int(r), "f": lambda: dec_f(r), "b": lambda: bool(int(r)),
-            "I": lambda: np.int64(int(r)), "F": lambda: np.float64(dec_f(r)),
+            "I": lambda: (np.int64(int(r)) if -2 ** 63 <= int(r) < 2 ** 63
+                                else np.uint64(int(r))), "F": lambda: np.float64(dec_f(r)),
             "B": lambda: np.bool_(bool(int(r)))}[k]()
 
 
@@ -905,10 +918,85 @@ def storage_fail(ctx, entries):
     return None
 
 
-def good_value(rng, dfn, sec, key):
-    """a value (random representation) the key's converter accepts"""
+NAN = float("nan")
+TINY = 5e-324                      # smallest subnormal double
+SMALL = 2.2250738585072014e-308    # smallest normal double
+HUGE = 1.7976931348623157e308      # largest finite double
+#: values at the edge of the value range, per converter: non-finite floats, signed zeros,
+#: subnormals, the largest doubles, integers up to 64 bit (those handed to converters that go
+#: through float() are exactly representable doubles: the model computes with exact numbers),
+#: texts that are blank or empty after stripping, texts spelling special numbers
+EDGE_VALUES = {
+    "float": [NAN, INF, -INF, -0.0, TINY, -TINY, SMALL, HUGE, -HUGE, np.float32("nan"),
+              np.float64("-inf"), np.float16("inf"), np.float64("nan"), "nan", "inf", "-inf",
+              "NaN", "-0.0", b"nan", np.array(NAN), np.array(-INF), 2 ** 62, -2 ** 63, 2 ** 63,
+              np.float32(1e-45), np.uint64(2 ** 63)],
+    "fint": [2 ** 62, -2 ** 63, 2 ** 53, 2 ** 63, np.int64(-2 ** 63), np.uint64(2 ** 63), -0.0,
+             "-0", "9007199254740992", 4e18, np.float64(-0.0)],
+    "fbool": [-0.0, np.float64(-0.0), TINY, "FALSE", "TRUE"],
+    "fboolorfloat": [NAN, INF, -INF, -0.0, TINY, HUGE, np.float32("nan"), np.float64("inf"),
+                     "nan", "-inf", SMALL],
+    "f1dfloatduple": [(NAN, 1.5), [INF, -INF], np.array([NAN, NAN]), (-0.0, TINY),
+                      ["nan", "inf"], np.array([HUGE, -HUGE]), (NAN, INF),
+                      np.array([np.nan, 0.5], dtype=np.float32)],
+    "f2dfloatarray": [[[NAN, 1.0], [INF, -INF]], np.array([[NAN, 0.5]]), [[-0.0, TINY]],
+                      np.array([[HUGE, -HUGE], [SMALL, NAN]]), [[NAN, NAN]], NAN, [INF, NAN]],
+    "lcstr": [" ", "NaN", " X ", "\t", "INF", "None", "0"],
+    "str": [" ", "  x ", "\t", "nan", "None", "0", "-0.0", "inf", "   ", "''", NAN, -0.0, INF],
+    "identity": [NAN, INF, -INF, -0.0, TINY, HUGE, np.float32("nan"), np.float64("nan"),
+                 2 ** 63 - 1, -2 ** 63, np.float16("-inf"), SMALL],
+    "user": [NAN, INF, -INF, -0.0, TINY, HUGE, -HUGE, np.float32("nan"), np.float64("nan"),
+             np.float16("inf"), [NAN], [NAN, 1.0], (INF,), np.array([NAN, INF]), [-0.0],
+             [[NAN, -INF]], np.array([[NAN]]), np.array(NAN), 2 ** 63 - 1, -2 ** 63,
+             2 ** 64 - 1, 2 ** 63, np.uint64(2 ** 64 - 1), " ", "  ", "nan", "None", " x ",
+             np.array([], dtype=np.float32), [TINY, HUGE]],
+}
+
+
+def double_exact(v):
+    """no integer in `v` is changed by float(): converters that go through float() round larger
+    integers to the nearest double (trusted: float rounding; the model computes exactly)"""
+    try:
+        if isinstance(v, (str, bytes)) or v is None:
+            return True
+        if isinstance(v, (list, tuple)):
+            return all(double_exact(x) for x in v)
+        a = np.asarray(v)
+        if a.dtype.kind in "iu":
+            return all(int(float(x)) == int(x) for x in a.ravel().tolist())
+        if a.dtype.kind == "O":
+            return all(double_exact(x) for x in a.ravel().tolist())
+        return True
+    except Exception:  # noqa
+        return True
+
+
+def edge_value(rng, dfn, sec, key):
+    """a value at the edge of the value range that the key's converter ACCEPTS, or None.
+
+    Acceptance is asked from the code itself (in-memory assignment), so a converter that starts
+    to refuse a class of values shows up in the assignment part, not as a storage failure."""
+    n = getattr(dfn.get_config_value_func(sec, key), "__name__", "")
+    pool = EDGE_VALUES.get(n)
+    if pool is None:
+        pool = EDGE_VALUES["user" if sec == "user" else "identity"]
+    v = pool[rng.randrange(len(pool))]
+    try:
+        a, _ws, _w = set_primary(sec, key, v.decode("utf-8") if isinstance(v, bytes) else v)
+    except Exception:  # noqa
+        return None
+    return v if a.startswith("stored") else None
+
+
+def good_value(rng, dfn, sec, key, edge=0.3):
+    """a value (random representation) the key's converter accepts; with probability `edge`
+    one from the edge of the value range (`EDGE_VALUES`)"""
     func = dfn.get_config_value_func(sec, key)
     n = getattr(func, "__name__", "")
+    if edge and rng.random() < edge:
+        v = edge_value(rng, dfn, sec, key)
+        if v is not None:
+            return v
     if n == "fbool":
         return rng.choice([True, False, "true", "False", 0, 1, np.bool_(True), 2.5, b"0"])
     if n == "fint":
@@ -1000,23 +1088,33 @@ def carry_through(ctx, entries, j):
             outs["join"] = [wd / "join.rtdc"]
         except Exception as e:  # noqa
             fails.append(f"join raised {e!r}"[:200])
+        # reference = the normalised ORIGINALS (in-memory assignment of what was written), not
+        # what the re-opened source reports: a reader that loses or alters a value would
+        # otherwise lose it in the reference and in the output alike.  The re-opened source is
+        # judged as one more view.
+        views = [("re-opened source", src, ref)]
         for tool, paths in outs.items():
             for p in paths:
                 try:
-                    got = read_config(p)
+                    views.append((tool, p, read_config(p)))
                 except Exception as e:  # noqa
                     fails.append(f"{tool}: output cannot be opened: {e!r}"[:200])
-                    continue
-                for sec, key, v in entries:
-                    lk = key.lower()
-                    if (sec, lk) in NOT_CARRIED:
-                        continue
-                    want = ref.get(sec, {}).get(lk, "<missing>")
-                    have = got.get(sec, {}).get(lk, "<missing>")
-                    if not pyeq(have, want) or (has_conv(sec, lk)
-                                                and enc_safe(have) != enc_safe(want)):
-                        fails.append(f"{tool}: [{sec}]:{lk} source {want!r}, output {have!r}")
             ctx.stat("carried:" + tool)
+        last = {(sec, key): v for sec, key, v in entries}   # a repeated key: last value wins
+        for (sec, key), v in last.items():
+            lk = key.lower()
+            if (sec, lk) in NOT_CARRIED:
+                continue
+            _a, _ws, want = set_primary(sec, lk, v.decode("utf-8") if isinstance(v, bytes) else v)
+            for tool, p, got in views:
+                have = got.get(sec, {}).get(lk, "<missing>")
+                if isinstance(have, str) and have == "<missing>":
+                    fails.append(f"{tool}: [{sec}]:{lk} written as {v!r} (normalised {want!r}) "
+                                 f"is missing")
+                elif not pyeq(have, want) or (has_conv(sec, lk)
+                                              and enc_safe(have) != enc_safe(want)):
+                    fails.append(f"{tool}: [{sec}]:{lk} written as {v!r}, normalised {want!r}, "
+                                 f"file gives {have!r}")
     return fails
 
 
@@ -1218,6 +1316,15 @@ def run(ctx):
         ctx.case(("file", sec, kk.lower(), text), nontrivial=True)
         ctx.stat("file:" + a2.split(" ")[0])
         ok = (a2 == a) or (a2.startswith("rejected") and (a.startswith("rejected") or t == ""))
+        if not ok and t == "" and a1 == "rejected":
+            # a line without value is skipped: the key keeps what a fresh Configuration holds
+            # (some [filtering] keys have defaults)
+            with warnings.catch_warnings():
+                warnings.simplefilter("ignore")
+                fresh = cfgmod.Configuration()
+            dflt = ("stored " + enc_safe(fresh[sec][kk.lower()])) \
+                if (sec in fresh and kk.lower() in fresh[sec]) else "rejected"
+            ok = a2 == dflt
         # a value the converter refuses makes load_from_file raise like the assignment
         if not ok and not (a.startswith("err") and a1 == a):
             spec_fail.append((f"configuration file line '[{hdr}] {kk} = {text}' gives {a2}; "
